@@ -797,7 +797,19 @@ func (x *Exec) applyContract(e *ast.CallExpr, st *State, fn *types.Func, c *Cont
 	}
 	if valueRecv {
 		if sel, ok := unparen(e.Fun).(*ast.SelectorExpr); ok {
-			x.store(sel.X, env[recvN].v, st)
+			promoted := false
+			if s := x.info.Selections[sel]; s != nil && len(s.Index()) > 1 {
+				promoted = true
+			}
+			switch {
+			case !promoted:
+				x.store(sel.X, env[recvN].v, st)
+			case len(c.Modifies) == 0:
+				// method promoted from an embedded struct: the receiver is a
+				// field of sel.X; a contract without modifies leaves it as it is
+			default:
+				x.fail(e.Pos(), "unsupported: promoted pointer-receiver method %s with a modifies clause on an embedded value receiver", c.Short)
+			}
 		}
 	}
 	x.usedContracts[c.Key] = c
